@@ -3,6 +3,7 @@
 //! evaluates each property directly on the implementation (failing-input search).
 mod c05;
 mod c06;
+mod c06msg;
 mod c07;
 mod c08;
 mod boundary;
